@@ -501,6 +501,16 @@ class RedeemScript(Script):
         quorum_m = op_code_to_number(self.commands[0])
         # 3 because quorum_m, OP_CHECKMULTISIG, and bitcoin off-by-one error
         quorum_n = len(self.commands) - 3
+        # the script has to be exactly OP_m <n pubkeys> OP_n OP_CHECKMULTISIG
+        if (
+            not 1 <= quorum_m <= quorum_n
+            or self.commands[-2] != number_to_op_code(quorum_n)
+            or not all(
+                isinstance(c, bytes) and len(c) in (33, 65)
+                for c in self.commands[1:-2]
+            )
+        ):
+            raise ValueError(f"Not a standard m-of-n p2sh multisig: {self}")
         return quorum_m, quorum_n
 
     def signing_pubkeys(self):
